@@ -1,6 +1,6 @@
 (* ptn_file_total: ParsePTN + InitialPosition + replay (Iterator, PositionAtMove) never panic, on every byte string. *)
 From Coq Require Import NArith ZArith List Bool Lia.
-Require Import Board Move GameOver PtnMove Playtak Tps PtnFile PtnFileIter PtnFileTotal PtnFileSafe.
+Require Import Board Move GameOver PtnMove Playtak Tps PtnFile PtnFileIter PtnFileTotal PtnFileSafe TotalFacts.
 Import ListNotations.
 
 Lemma safe_step basis p m : safe p ->
@@ -38,4 +38,19 @@ Proof.
   intros E T. pose proof (ptn_file_total_partial basis s) as H. rewrite E in H. destruct H as (H1 & H2 & H3).
   assert (NP : parse_tps basis (find_tag tag_tps (tags g)) <> Move.Panic) by (rewrite T; discriminate).
   auto.
+Qed.
+
+(* with the repaired TPS parser (TotalFacts.parse_tps_total) the premise is discharged: the full statement *)
+Theorem ptn_file_total basis s :
+  match parse_ptn s with
+  | Move.Panic => False
+  | Move.Err => True
+  | Move.Ok g =>
+    initial_position basis g <> Move.Panic /\
+    (forall p0, initial_position basis g = Move.Ok p0 -> replay_all basis g p0 <> Move.Panic) /\
+    (forall n c, position_at_move basis g n c <> Move.Panic)
+  end.
+Proof.
+  pose proof (ptn_file_total_partial basis s) as H. destruct (parse_ptn s) as [g| |]; auto.
+  destruct H as (H1 & H2 & H3). pose proof (parse_tps_total basis (find_tag tag_tps (tags g))) as T. auto.
 Qed.
